@@ -82,3 +82,34 @@ Proof.
   exists t, w. split; [apply run_echo_reach; exact E|].
   vm_compute in E. inversion E; subst. vm_compute. auto.
 Qed.
+
+(** ** generate is a properly weighted sampler (finite discrete, Cond-free programs)
+    For every Cond-free program (any nesting of distributions, @gen functions, Vmap and
+    Scan), every constraint map with values in the outcome universe U, all arguments
+    and every test function G:
+        E_generate[ exp(w) G(trace) ] = E_simulate[ 1{trace holds the constrained values} G(trace) ]
+    in particular exp(weight) is an unbiased estimate of the probability of the
+    constraints, and weighted generate samples target the conditional distribution.
+    Cond is excluded (partial). *)
+From Coq Require Import QArith Qcanon.
+From GV Require Import Lemmas.Law.
+Theorem C02_importance_identity :
+  forall (U : list value), NoDup U ->
+  forall g x args (G : tr -> Qc), NC g -> oleaves_in U x ->
+    Ex U (gf_generate g x args) (fun tw => pow2 (snd tw) * G (fst tw))%Qc
+    = Ex U (gf_simulate g args) (fun t => if agreesb x t then G t else 0%Qc).
+Proof. intros U HU g x args G. apply importance_identity'. exact HU. Qed.
+Print Assumptions C02_importance_identity.
+
+Theorem C02_weight_unbiased :
+  forall (U : list value), NoDup U ->
+  forall g x args, NC g -> oleaves_in U x ->
+    Ex U (gf_generate g x args) (fun tw => pow2 (snd tw))
+    = Ex U (gf_simulate g args) (fun t => if agreesb x t then 1%Qc else 0%Qc).
+Proof. intros U HU g x args. apply generate_weight_unbiased. exact HU. Qed.
+Print Assumptions C02_weight_unbiased.
+
+(** every syntax tree without Cond compiles to such a program *)
+Theorem C02_compile_cond_free : forall g, nocond g = true -> NC (compile g).
+Proof. exact NC_compile. Qed.
+Print Assumptions C02_compile_cond_free.
